@@ -297,7 +297,7 @@ func (w *work) runPart(id string, p *PartSpec, tier, replay string) ([]*Result, 
 			select {
 			case err := <-done:
 				if replay != "" {
-					fmt.Fprint(os.Stderr, tail(eb.String(), 60))
+					fmt.Fprint(os.Stderr, tail(eb.String(), 400))
 				}
 				if err != nil {
 					errs[i] = fmt.Errorf("shard %d: %v\n%s", i, err, tail(eb.String(), 40))
